@@ -107,24 +107,25 @@ func (x *Exec) itoa1(v *Term) strVal {
 	return x.mkStr(ds)
 }
 
-func (x *Exec) pf(bs []*Term) *Term {
-	// decimal notation fact: "D.0" denotes the same number as "D" when D is an optional '-' and digits
+// stripDotZero: decimal notation fact — "D.0" denotes the same number as "D" when D is an optional '-' and digits
+func (x *Exec) stripDotZero(bs []*Term) ([]*Term, bool) {
 	if n := len(bs); n >= 3 && bs[n-1].op == OConst && bs[n-1].u == '0' && bs[n-2].op == OConst && bs[n-2].u == '.' {
-		ok := true
 		for i, b := range bs[:n-2] {
 			if i == 0 && b.op == OConst && b.u == '-' && n > 3 {
 				continue
 			}
 			lo, hi, _ := x.tb.urange(b)
 			if lo < '0' || hi > '9' {
-				ok = false
-				break
+				return bs, false
 			}
 		}
-		if ok {
-			bs = bs[:n-2]
-		}
+		return bs[:n-2], true
 	}
+	return bs, false
+}
+
+func (x *Exec) pf(bs []*Term) *Term {
+	bs, _ = x.stripDotZero(bs)
 	// decimal notation fact: the exponent marker is case-insensitive ("1E+06" denotes what "1e+06" denotes)
 	norm := make([]*Term, len(bs))
 	for i, b := range bs {
@@ -496,6 +497,13 @@ func registerNumberStubs(reg func(string, intrinsic)) {
 		// digits kept, no decimal exponent) denotes the integer m, and ParseFloat returns the float64
 		// nearest to it (round to nearest even) — documented contract of ParseFloat. The digits -> m
 		// step is the real readFloat code; only the final rounding is stated here.
+		if stripped, did := x.stripDotZero(x.bytesOf(s)); did {
+			// "D.0": the same fact through the literal "D" (scanned by the real readFloat again)
+			rf2 := x.callSSA(fr, token.NoPos, pkg.Func("readFloat"), []value{x.mkStr(stripped)}, nil).(tuple)
+			if okT, isT := rf2[6].(*Term); isT && x.branch(okT) {
+				rf = rf2
+			}
+		}
 		if mant, ok := rf[0].(*Term); ok {
 			tb := x.tb
 			exact := tb.And(tb.Eq(rf[1].(*Term), tb.Int(0)), tb.Not(rf[3].(*Term)))
